@@ -472,7 +472,19 @@ fn witness_setters(ctx: &mut Ctx, r: &mut Rng, _i: u64) {
     let mut pd = PlutusList::new();
     let n = 1 + g.r.usize(4);
     for _ in 0..n {
-        ns.add(&ns_pool[g.r.usize(2)]);
+        // the same script built through the API or read back from its bytes is one script
+        let pick = &ns_pool[g.r.usize(2)];
+        if g.r.below(3) == 0 {
+            match guard(|| NativeScript::from_bytes(pick.to_bytes())) {
+                Ok(Ok(parsed)) => {
+                    ctx.bucket("setters.native-script-parsed-copy");
+                    ns.add(&parsed);
+                }
+                _ => ns.add(pick),
+            }
+        } else {
+            ns.add(pick);
+        }
         ps.add(&ps_pool[g.r.usize(2)]);
         pd.add(&pd_pool[g.r.usize(2)]);
     }
